@@ -357,13 +357,14 @@ class VtsHarness:
         rname = raised.cls.name if isinstance(raised, Obj) else None
         if mname in ("start",):
             self.rec(ctx, uid + "/returns-normally", raised is None, detail=f"raised {rname}")
+        if mname in ("start", "advance_to", "advance_by"):
             if raised is None and not (isinstance(enabled0, bool) and enabled0):
-                if isinstance(enabled0, bool) or True:
-                    # either it was already running (nothing to do) or it ends disabled: can be started again
-                    en1 = it.truth_term(o.fields["_is_enabled"])
-                    en1 = z3.BoolVal(en1) if isinstance(en1, bool) else en1
-                    e0 = z3.BoolVal(enabled0) if isinstance(enabled0, bool) else enabled0
-                    self.rec(ctx, uid + "/ends-disabled-unless-already-running", z3.Or(e0, z3.Not(en1)))
+                # either it was already running (nothing to do) or it ends disabled, on EVERY way out (also the ones that
+                # return before the run loop): a drained or idle scheduler can be started again
+                en1 = it.truth_term(o.fields["_is_enabled"])
+                en1 = z3.BoolVal(en1) if isinstance(en1, bool) else en1
+                e0 = z3.BoolVal(enabled0) if isinstance(enabled0, bool) else enabled0
+                self.rec(ctx, uid + "/ends-disabled-unless-already-running", z3.Or(e0, z3.Not(en1)))
         if mname == "advance_to":
             t = it.to_int(args[0])
             if raised is not None:
